@@ -80,10 +80,25 @@ func ruleCD(w *world.World, r *report.RuleResult) {
 						return MISSING
 					}
 				}
+				// _, ok := store[d]: the not-found edge
+				if ex, ok := cv.(*ssa.Extract); ok && ex.Index == 1 {
+					if lk, ok := ex.Tuple.(*ssa.Lookup); ok && lk.CommaOk && isPerDBOuter(lk.X) && onPath(lk.X, pStore) && same(lk.Index) {
+						missEdge := 1
+						if neg {
+							missEdge = 0
+						}
+						if si == missEdge {
+							return MISSING
+						}
+					}
+				}
 				return 0
 			}
 			gen := func(in ssa.Instruction) world.Facts {
 				if v, ok := in.(ssa.Value); ok && isLookup(v) {
+					return FRESH
+				}
+				if lk, ok := in.(*ssa.Lookup); ok && lk.CommaOk && isPerDBOuter(lk.X) && onPath(lk.X, pStore) && same(lk.Index) {
 					return FRESH
 				}
 				return 0
